@@ -1,6 +1,7 @@
 package c24
 
 import (
+	"math"
 	"encoding/json"
 	"fmt"
 	"runtime/debug"
@@ -206,6 +207,7 @@ type goState struct {
 	th   *vm.Thread
 	obj  value.ArrayTuple
 	snap value.Value
+	nidx int
 }
 
 func replayGo(v *variant, th *vm.Thread, b *Beh, judgeAll bool) (findings []Finding, steps int) {
@@ -335,7 +337,35 @@ func (s *goState) rangeValue(rk string, lo, hi int) value.Value {
 	panic("range kind " + rk)
 }
 
-func (s *goState) exec(st *Step, o *Obs) {
+// stretch: the specification treats every index outside -len..len-1 alike (IndexError, nothing changes),
+// but TLC's index domain is a small interval. Two of every three out-of-range indices of a behaviour are
+// therefore replaced by a representative from the far ends of the Int range before they reach the real code
+// (the overflow corners of index normalisation); in-range indices are never touched.
+var farNeg = []int{math.MinInt64, math.MinInt64 + 1, -(1 << 62), -(1 << 32), -(1 << 31) - 1}
+var farPos = []int{math.MaxInt64, math.MaxInt64 - 1, 1 << 62, 1 << 32, 1 << 31}
+
+func (s *goState) stretch(i int) int {
+	n := s.obj.Length()
+	s.nidx++
+	switch {
+	case i < -n && s.nidx%3 != 0:
+		return farNeg[(s.nidx/3+i+64)%len(farNeg)]
+	case i >= n && s.nidx%3 != 0:
+		return farPos[(s.nidx/3+i)%len(farPos)]
+	}
+	return i
+}
+
+func (s *goState) exec(st0 *Step, o *Obs) {
+	st := st0
+	if st.Op == "get" || st.Op == "set" || st.Op == "remove_at" {
+		cp := *st0
+		cp.A = s.stretch(st0.A)
+		if cp.A != st0.A {
+			o.Stretched = cp.A
+		}
+		st = &cp
+	}
 	defer func() {
 		if r := recover(); r != nil {
 			stack := string(debug.Stack())
